@@ -72,6 +72,19 @@ class P(b1.Plugin):
         if not td.variants:
             td = gen.make_skeleton(rng, i, "enum", NICHE, max_fields=2, max_variants=4)
         r = rng.choice(REPRS)
+        long_enum = rng.random() < 0.04
+        if long_enum:
+            # more variants after an explicit discriminant than the repr type's positive range holds (the values themselves
+            # stay in range): `#[repr(i8)] enum { V0 = -128, V1, .., V139 }`
+            n = rng.randint(130, 180)
+            td.variants = [gen.Variant("W%d" % k, "unit", []) for k in range(n)]
+            r = rng.choice(["i8", "i8", "i8, align(2)"])
+            td.variants[0].disc = -128
+            td.variants[0].disc_src = None
+            if rng.random() < 0.5:
+                j = rng.randint(100, n - 2)
+                td.variants[j].disc = -128 + j + rng.randint(0, 120 - (n - 128))   # a later explicit value that keeps the rest in range
+                td.variants[j].disc_src = None
         all_unit = all(v.shape == "unit" for v in td.variants)
         if r is not None and not td.variants:
             r = None                                   # repr on a zero-variant enum is rejected by rustc
@@ -80,7 +93,7 @@ class P(b1.Plugin):
         ri = repr_int(r)
         consts = []
         # explicit discriminants: legal on fieldless enums, or with a primitive repr
-        if td.variants and (all_unit or ri) and rng.random() < 0.6:
+        if td.variants and (all_unit or ri) and rng.random() < 0.6 and not long_enum:
             lo, hi = INT_RANGE[ri] if ri else (-2**31, 2**31 - 1)
             cur = None
             used = set()
